@@ -261,6 +261,13 @@ func (s *Server) handle(w http.ResponseWriter, r *http.Request) {
 	now := time.Now()
 
 	switch ep {
+	case "meta":
+		// authorization server metadata: the issuer and where to introspect
+		// (the issuer is the location of the document without its well-known suffix)
+		writeJSON(w, map[string]any{
+			"issuer": "http://" + r.Host + "/" + parts[0] + "/meta", "introspection_endpoint": "http://" + r.Host + "/" + parts[0] + "/introspect/md",
+			"jwks_uri": "http://" + r.Host + "/" + parts[0] + "/jwks",
+		})
 	case "introspect":
 		sc.Rec.Remote(ep, false, false, 0)
 
@@ -268,6 +275,10 @@ func (s *Server) handle(w http.ResponseWriter, r *http.Request) {
 		resp := map[string]any{
 			"active": true, "sub": "s-" + Digest(r, rest, []byte(form.Get("token"))), "iss": "iss",
 			"scope": sc.Scope, "aud": []string{"aud1"},
+		}
+
+		if strings.HasSuffix(rest, "/md") { // the endpoint the metadata document names: tokens of that issuer
+			resp["iss"] = "http://" + r.Host + "/" + parts[0] + "/meta"
 		}
 
 		if sc.ExpHas {
